@@ -920,17 +920,19 @@ func (e *Enc) instr(ins ssa.Instruction) {
 		o := e.newObj(h)
 		v := e.define(x, o)
 		xv := e.val(x.X)
-		e.assert(app("=", app("dyntype", v.T), ilit(e.typeID(x.X.Type()))))
+		// facts about the freshly numbered object are guarded: allocations in parallel branches may share an id
+		rg := e.reach[e.curBlock]
+		e.assert(implies(rg, app("=", app("dyntype", v.T), ilit(e.typeID(x.X.Type())))))
 		switch xv.S {
 		case "Ref":
-			e.assert(app("=", app("unboxRef", v.T), xv.T))
+			e.assert(implies(rg, app("=", app("unboxRef", v.T), xv.T)))
 			if ts := x.X.Type().String(); ts == "*bytes.Reader" || ts == "*bytes.Buffer" {
 				// the interface value inherits the reader's ghost accounting
 				h.m["$consumed"] = app("store", e.heapGet(h, "$consumed", "Int"), v.T, app("select", e.heapGet(h, "$consumed", "Int"), xv.T))
 				h.m["$limit"] = app("store", e.heapGet(h, "$limit", "Int"), v.T, app("select", e.heapGet(h, "$limit", "Int"), xv.T))
 			}
 		case "Int":
-			e.assert(app("=", app("unboxInt", v.T), xv.T))
+			e.assert(implies(rg, app("=", app("unboxInt", v.T), xv.T)))
 		}
 	case *ssa.TypeAssert:
 		e.typeAssert(x)
@@ -1183,6 +1185,11 @@ func (e *Enc) unop(x *ssa.UnOp) {
 		if g, ok := x.X.(*ssa.Global); ok && e.w.NonNilGlobal[g] {
 			// init-only package-level error value: a fixed non-nil object, distinct per variable
 			e.define(x, app("obj", ilit(globalID("val:"+g.String()))))
+			return
+		}
+		if t, ok := e.tableLoad(x); ok {
+			r := e.define(x, t)
+			e.assert(e.typeFacts(r.T, x.Type()))
 			return
 		}
 		e.nilCheck(v.T, x.X, x.Pos(), "load")
